@@ -24,6 +24,7 @@ import (
 	"github.com/icon-project/goloop/common"
 	"github.com/icon-project/goloop/common/crypto"
 	"github.com/icon-project/goloop/common/db"
+	"github.com/icon-project/goloop/module"
 	"github.com/icon-project/goloop/service/state"
 
 	"verifharness/tlaio"
@@ -37,6 +38,7 @@ type data struct {
 	Bl     bool           `json:"bl"`
 	Nx     int            `json:"nx"`
 	Cur    int            `json:"cur"`
+	Dep    int            `json:"dep"` // -1 no deposit, n: one deposit with n units left
 	Empty  bool           `json:"empty"`
 }
 
@@ -72,6 +74,35 @@ func (w *world) val(v int) []byte {
 	}
 	return bytes.Repeat([]byte{0xA0 + byte(v)}, 48)
 }
+// deposit context: term 0 (one deposit object), one step costs one unit
+const depUnit = 1000
+
+type feeCtx struct{}
+
+func (feeCtx) StepPrice() *big.Int        { return big.NewInt(depUnit) }
+func (feeCtx) BlockHeight() int64         { return 100 }
+func (feeCtx) DepositTerm() int64         { return 0 }
+func (feeCtx) DepositIssueRate() *big.Int { return big.NewInt(8) }
+func (feeCtx) TransactionID() []byte      { return []byte("deposit-tx") }
+func (feeCtx) FeeSharingEnabled() bool    { return true }
+func (feeCtx) FeeLimit() *big.Int         { return big.NewInt(depUnit) }
+
+func depositOf(as state.AccountData) (int, error) {
+	info, err := as.GetDepositInfo(feeCtx{}, module.JSONVersion3)
+	if err != nil {
+		return -2, err
+	}
+	if info == nil {
+		return -1, nil
+	}
+	s, _ := info["availableDeposit"].(string)
+	v, ok := new(big.Int).SetString(strings.TrimPrefix(s, "0x"), 16)
+	if !ok || new(big.Int).Mod(v, big.NewInt(depUnit)).Sign() != 0 {
+		return -2, fmt.Errorf("availableDeposit %q", s)
+	}
+	return int(new(big.Int).Div(v, big.NewInt(depUnit)).Int64()), nil
+}
+
 func (w *world) code(c int) []byte   { return []byte(fmt.Sprintf("contract-code-%s-%d", w.salt, c)) }
 func (w *world) txHash(c int) []byte { return []byte(fmt.Sprintf("deploy-tx-%d", c)) }
 func (w *world) codeID(cs state.ContractSnapshot) int {
@@ -142,6 +173,11 @@ func (r *runner) project(as state.AccountSnapshot) (data, error) {
 	d.Nx = r.w.codeID(as.NextContract())
 	d.Cur = r.w.codeID(as.Contract())
 	d.Empty = as.IsEmpty()
+	dep, err := depositOf(as)
+	if err != nil {
+		return d, err
+	}
+	d.Dep = dep
 	return d, nil
 }
 
@@ -149,7 +185,7 @@ func same(a, b data, viaSnapshot bool) bool {
 	if viaSnapshot && (a.Absent || b.Absent) {
 		return a.Absent == b.Absent
 	}
-	if a.Bal != b.Bal || a.Ct != b.Ct || a.Empty != b.Empty || a.Bl != b.Bl || a.Nx != b.Nx || a.Cur != b.Cur {
+	if a.Bal != b.Bal || a.Ct != b.Ct || a.Empty != b.Empty || a.Bl != b.Bl || a.Nx != b.Nx || a.Cur != b.Cur || a.Dep != b.Dep {
 		return false
 	}
 	for k, v := range b.St {
@@ -173,7 +209,7 @@ func sigOf(m map[string]data, accts []string) string {
 			ks = append(ks, k)
 		}
 		sort.Strings(ks)
-		fmt.Fprintf(&sb, "%s:%d,%v,%v,%d,%d", a, d.Bal, d.Ct, d.Bl, d.Nx, d.Cur)
+		fmt.Fprintf(&sb, "%s:%d,%v,%v,%d,%d,%d", a, d.Bal, d.Ct, d.Bl, d.Nx, d.Cur, d.Dep)
 		for _, k := range ks {
 			fmt.Fprintf(&sb, ",%s=%d", k, d.St[k])
 		}
@@ -197,6 +233,16 @@ func (r *runner) apply(ws state.WorldState, a string, d data) {
 	}
 	if d.Nx != 0 {
 		as.DeployContract(r.w.code(d.Nx), state.JavaEE, "application/java", nil, r.w.txHash(d.Nx))
+	}
+	if d.Dep >= 0 { // a deposit with d.Dep units left (0: a deposit that was used up)
+		n := d.Dep
+		if n == 0 {
+			n = 1
+		}
+		as.AddDeposit(feeCtx{}, big.NewInt(int64(n)*depUnit))
+		if d.Dep == 0 {
+			as.WithdrawDeposit(feeCtx{}, nil, big.NewInt(depUnit))
+		}
 	}
 	ks := make([]string, 0)
 	for k := range d.St {
@@ -297,6 +343,28 @@ func (r *runner) run(steps []step) int {
 			err := r.ws.GetAccountState(r.w.acct(s.A)).AcceptContract(r.w.txHash(s.V), []byte("audit"))
 			if (err == nil) != (s.Res == 1) {
 				r.viol("ws:accept:result", "%s: AcceptContract(%s) returned %v, spec says accepted=%v", at, s.A, err, s.Res == 1)
+			}
+		case "adddeposit":
+			if err := r.ws.GetAccountState(r.w.acct(s.A)).AddDeposit(feeCtx{}, big.NewInt(depUnit)); err != nil {
+				r.viol("ws:adddeposit:error", "%s: %v", at, err)
+			}
+		case "withdraw", "withdrawall":
+			var amount *big.Int
+			if s.Op == "withdraw" {
+				amount = big.NewInt(depUnit)
+			}
+			_, _, err := r.ws.GetAccountState(r.w.acct(s.A)).WithdrawDeposit(feeCtx{}, nil, amount)
+			if (err == nil) != (s.Res == 1) {
+				r.viol("ws:withdraw:result", "%s: WithdrawDeposit(%s) returned %v, spec says success=%v", at, s.A, err, s.Res == 1)
+			}
+		case "paysteps":
+			_, byDep, err := r.ws.GetAccountState(r.w.acct(s.A)).PaySteps(feeCtx{}, big.NewInt(1))
+			got := 0
+			if byDep != nil {
+				got = int(byDep.Int64())
+			}
+			if err != nil || got != s.Res {
+				r.viol("ws:paysteps:result", "%s: PaySteps(%s) paid %d steps from the deposit (%v), spec says %d", at, s.A, got, err, s.Res)
 			}
 		case "touch":
 			r.ws.GetAccountState(r.w.acct(s.A))
